@@ -176,6 +176,8 @@ pub trait ExAsRef<T: core::marker::PointeeSized>: core::marker::PointeeSized {
 }
 pub assume_specification<T>[ std::option::Option::<std::option::Option<T>>::flatten ](o: Option<Option<T>>) -> (r: Option<T>)
     ensures r == (match o { Some(Some(x)) => Some(x), _ => None::<T> });
+pub assume_specification<'a, T: Copy>[ std::option::Option::<&'a T>::copied ](o: Option<&'a T>) -> (r: Option<T>)
+    ensures r == (match o { Some(x) => Some(*x), None => None::<T> });
 pub assume_specification<T: Default>[ core::mem::take::<T> ](dest: &mut T) -> (r: T)
     ensures r == *old(dest), call_ensures(T::default, (), *final(dest));
 pub assume_specification<T>[ <[T]>::reverse ](s: &mut [T])
@@ -212,8 +214,10 @@ pub fn drain_all<T>(v: &mut Vec<T>) -> (r: Vec<T>)
 pub open spec fn hash_drained<K, V>(old: Map<K, V>, r: Seq<(K, V)>) -> bool {
     &&& forall|i: int| 0 <= i < r.len() ==> old.dom().contains((#[trigger] r[i]).0) && old[r[i].0] == r[i].1
     &&& forall|k: K| old.dom().contains(k) ==> exists|i: int| 0 <= i < r.len() && (#[trigger] r[i]).0 == k
-    &&& forall|i: int, j: int| 0 <= i < j < r.len() ==> (#[trigger] r[i]).0 != (#[trigger] r[j]).0
+    &&& forall|i: int, j: int| 0 <= i < j < r.len() ==> #[trigger] keys_differ(r, i, j)
 }
+/// (a named atom, so that the pairwise clause is instantiated only where a proof asks for it)
+pub open spec fn keys_differ<K, V>(r: Seq<(K, V)>, i: int, j: int) -> bool { r[i].0 != r[j].0 }
 #[verifier::external_body]
 pub fn drain_hashmap<K, V>(m: &mut std::collections::HashMap<K, V>) -> (r: Vec<(K, V)>)
     ensures hash_drained(old(m)@, r@), final(m)@ == Map::<K, V>::empty()
